@@ -4,7 +4,7 @@
 From Coq Require Import ZArith List String Ascii Bool Lia.
 From Model Require Import PyBase Mdl MdlMap MdlMapRxn Mrv Stereo.
 From Gen Require Import MdlTables MdlSource MdlFn.
-From Proofs Require Import MdlProofs MdlV2000 MdlV3000 MdlTail MdlFraming MdlFramingExt MdlMeta MdlFile MdlFileMol MdlFileMol3 MdlRxn MdlFileRxn MdlFileRxn3 MdlSessions MdlEscape MdlSourceTie MdlMapProofs MdlSlices MrvProofs StereoProofs MdlMapRxnProofs MdlFnTie MdlFnTie2 MdlMapRxnGeneral MdlRxnNumbers MdlRxnEmpty MdlFuel MdlFuel2 MdlRxnDrop MdlMapRxnStrict.
+From Proofs Require Import MdlProofs MdlV2000 MdlV3000 MdlTail MdlFraming MdlFramingExt MdlMeta MdlFile MdlFileMol MdlFileMol3 MdlRxn MdlFileRxn MdlFileRxn3 MdlSessions MdlEscape MdlSourceTie MdlMapProofs MdlSlices MrvProofs StereoProofs MdlMapRxnProofs MdlFnTie MdlFnTie2 MdlMapRxnGeneral MdlRxnNumbers MdlRxnDropped MdlFuel MdlFuel2 MdlRxnDrop MdlMapRxnStrict.
 Import ListNotations.
 Open Scope Z_scope.
 Local Notation length := List.length.
@@ -719,14 +719,35 @@ Theorem C11_rxn_numbers_example :
 Proof. exact (conj ex_rxn_numbers_ok rxn_numbers_example). Qed.
 Print Assumptions C11_rxn_numbers_example.
 
-(* a finding: "a reaction record with one EMPTY molecule is read with the other molecules in their roles" is false for RXN V2000 unless the
-   empty molecule is the last one (the search for the next $MOL line assumes at least one atom line); replayed on the real code, recorded as
-   known finding rxn-v2000-empty-molecule-loses-record *)
-Theorem C11_rxn_v2000_empty_molecule_refuted :
-  parse_rxn_v2000 (map add_nl (ex_rxn_head ++ ex_empty_block ++ ex_carbon_block)) = Err ValueError /\
-  roles_of (parse_rxn_v2000 (map add_nl (ex_rxn_head ++ ex_carbon_block ++ ex_empty_block))) = Ok (1, 0, 0, 1)%nat.
-Proof. exact rxn_v2000_empty_molecule_refuted. Qed.
-Print Assumptions C11_rxn_v2000_empty_molecule_refuted.
+(* WHOLE PARSER, RXN V2000 (after the repair 93f39b0 of the $MOL search; this is the statement the former _refuted theorem refuted): a record
+   whose blocks are written molecules, EMPTY molecules (any three header lines, a counts line with atom count 0, one more line) or anything
+   else the molecule parser rejects with a ValueError, at ANY positions, is read with every other molecule in its role and one log entry
+   per dropped block (the model's loop with its line search, the bookkeeping as translated from the source: composition of the loop
+   lemma with C11_rxn_drop_roles) *)
+Theorem C11_rxn_v2000_dropped_roles : forall name l2 l3 counts (A P G : list ditem) tail,
+  Forall (ditem_ok pm2 (L "$MOL") 4 1) (A ++ P ++ G) -> A ++ P ++ G <> [] -> startswith (L "$MOL") counts = false ->
+  py_int (slice 0 3 counts) = Ok (Z.of_nat (length A)) -> py_int (slice 3 6 counts) = Ok (Z.of_nat (length P)) ->
+  (match rstrip (slice_from 6 counts) with [] => Ok 0 | t => py_int t end) = Ok (Z.of_nat (length G)) ->
+  parse_rxn_v2000 ([add_nl (L "$RXN"); name; l2; l3; counts] ++ concat (map dit_lines (A ++ P ++ G)) ++ tail) =
+    Ok (mk_rparsed (somes parsed3 (map dit_out A)) (somes parsed3 (map dit_out P)) (somes parsed3 (map dit_out G))
+                   (title_of name) (nones (A ++ P ++ G))).
+Proof. exact rxn_v2000_dropped_roles. Qed.
+Print Assumptions C11_rxn_v2000_dropped_roles.
+(* the blocks the theorem is about exist: every written molecule, and every empty molecule block *)
+Theorem C11_rxn_v2000_blocks : 
+  (forall mapping g fs, wf_wmol2 g fs -> exists ls, write_mol_v2000 mapping g = Ok ls /\ ditem_ok pm2 (L "$MOL") 4 1 (written2 mapping ls g fs)) /\
+  (forall t1 t2 t3 counts last b, py_int (slice 0 3 counts) = Ok 0 -> py_int (slice 3 6 counts) = Ok b ->
+     ditem_ok pm2 (L "$MOL") 4 1 (empty2 t1 t2 t3 counts last)).
+Proof. exact (conj written2_ok empty2_ok). Qed.
+Print Assumptions C11_rxn_v2000_blocks.
+(* non-vacuity through the theorem: an EMPTY reactant FIRST, the written example molecule as product, an EMPTY agent *)
+Theorem C11_rxn_v2000_dropped_example :
+  exists ls, write_mol_v2000 true (ex_mol_named (L "p") ex_mol) = Ok ls /\
+    parse_rxn_v2000 ([add_nl (L "$RXN"); add_nl (L "t"); add_nl []; add_nl []; add_nl (L "  1  1  1")] ++
+                     concat (map dit_lines ([ex_empty2] ++ [written2 true ls (ex_mol_named (L "p") ex_mol) ex_fs] ++ [ex_empty2])) ++ ex_tail)
+    = Ok (mk_rparsed [] [expected_mol2 true (ex_mol_named (L "p") ex_mol) ex_fs] [] (Some (L "t")) 2).
+Proof. exact rxn_v2000_dropped_example. Qed.
+Print Assumptions C11_rxn_v2000_dropped_example.
 
 (* a DROPPED molecule leaves every other molecule in its role: the bookkeeping of the reaction parsers AS TRANSLATED from the source
    (src_rxn_drop; C11_tie_rxn_loop_drop: the model's loop applies exactly this function), run over the outcomes of the molecules in file
@@ -785,7 +806,7 @@ Theorem C11_tie_rxn_v2000_counts : forall data line l1 i0 i1 i2,
     let '(rc, pc, gc) := src_rxn_counts i0 i1 i2 in
     if gc =? 0 then Err ValueError else
     if (rc <? 0) || (pc <? rc) || (gc <? pc) then Err OtherError else
-    do st <- foldM (rxn_loop (fun d => lift2 (parse_mol_v2000 d)) (L "$MOL") 5 6 1 data) (nat_range (Z.to_nat gc)) (mk_rs 0 [] rc pc gc 0);
+    do st <- foldM (rxn_loop (fun d => lift2 (parse_mol_v2000 d)) (L "$MOL") 4 5 1 data) (nat_range (Z.to_nat gc)) (mk_rs 0 [] rc pc gc 0);
     rxn_result (title_of l1) st.
 Proof. exact tie_rxn_v2000_counts. Qed.
 Print Assumptions C11_tie_rxn_v2000_counts.
